@@ -672,7 +672,8 @@ class C10(LiftProp):
     rule = ("well-formed files (all four strand combinations, multi-block, gapped, multi-chain) and their role-exchanged twins; "
             "for the first, last and a random interior base of every block: lift the single base x in the file, then lift every "
             "image y in the twin and require x among the images; non-trivial = block on a '-' side or with non-zero gaps before it; "
-            "distinct by (file, base)")
+            "distinct by (file, base); additionally (C10_machine_intervals) whole requests from inside one block to inside another: "
+            "for every pair p of the answer, lifting p's query side in the twin must return the reversed pair exactly")
     n_files = {"quick": 150, "thorough": 8000}
 
     def cases(self, rng, tier):
